@@ -17,3 +17,26 @@ def load_function(target, namespace):
     ns = dict(namespace)
     exec(compile(mod, f"<{target}>", "exec"), ns)  # noqa: S102 - closed namespace, repository code under check
     return ns[node.name], info
+
+
+def load_class(relpath, clsname, methods, namespace, bases=()):
+    """compile ``class <clsname>`` consisting of the named methods (real text, decorators kept and resolved in the
+    given namespace; private names are mangled as in the original because the class keeps its name)"""
+    import copy
+
+    cls = extract.find_class(relpath, clsname)
+    body = []
+    for st in cls.body:
+        if isinstance(st, ast.FunctionDef) and st.name in methods:
+            body.append(copy.deepcopy(st))
+    missing = set(methods) - {b.name for b in body}
+    if missing:
+        raise extract.ExtractError(f"{relpath}::{clsname}: methods not found: {sorted(missing)}")
+    node = ast.ClassDef(name=clsname, bases=[ast.Name(id=b, ctx=ast.Load()) for b in bases], keywords=[], body=body, decorator_list=[])
+    if hasattr(node, "type_params"):
+        node.type_params = []
+    mod = ast.Module(body=[node], type_ignores=[])
+    ast.fix_missing_locations(mod)
+    ns = dict(namespace)
+    exec(compile(mod, f"<{relpath}::{clsname}>", "exec"), ns)  # noqa: S102 - closed namespace, repository code under check
+    return ns[clsname]
